@@ -103,11 +103,13 @@ def _body(ch: core.Chooser, depth: int, budget_: List[int], nslots: int, names: 
             break
         budget_[0] -= 1
         c = ch.sub(i)
-        kind = c.weighted([(3 if depth < 3 else 0, "block"), (2, "set"), (1 if depth else 0, "raise"), (2 if depth < 3 else 0, "catch"), (2, "new"), (9, "op")])
+        kind = c.weighted([(3 if depth < 3 else 0, "block"), (2, "set"), (1, "set_rejected"), (1 if depth else 0, "raise"), (2 if depth < 3 else 0, "catch"), (2, "new"), (9, "op")])
         if kind == "block":
             out.append({"k": "block", "kw": _kw(c.sub("kw")), "body": _body(c.sub("b"), depth + 1, budget_, nslots, names)})
         elif kind == "set":
             out.append({"k": "set", "kw": _kw(c.sub("kw"))})
+        elif kind == "set_rejected":
+            out.append({"k": "set_rejected", "kw": _kw(c.sub("kw"))})
         elif kind == "raise":
             out.append({"k": "raise"})
         elif kind == "catch":
@@ -172,6 +174,7 @@ class Exec:
         self.records: Dict[int, dict] = {}
         self.order: List[int] = []
         self.operand_names: Dict[int, tuple] = {}
+        self.model: Dict[str, Any] = dict(numpoly.get_options(defaults=True))  # the options the program *asked for*
 
     def run(self) -> None:
         try:
@@ -187,13 +190,25 @@ class Exec:
         k = node["k"]
         if k == "block":
             if self.primary:
-                with self.np.global_options(**node["kw"]):
-                    self.body(node["body"])
+                saved = dict(self.model)
+                self.model.update(node["kw"])
+                try:
+                    with self.np.global_options(**node["kw"]):
+                        self.body(node["body"])
+                finally:
+                    self.model = saved
             else:
                 self.body(node["body"])
         elif k == "set":
             if self.primary:
                 self.np.set_options(**node["kw"])
+                self.model.update(node["kw"])
+        elif k == "set_rejected":
+            if self.primary:
+                try:  # valid options first, then an unknown one: must change nothing
+                    self.np.set_options(**node["kw"], no_such_option=1)
+                except KeyError:
+                    pass
         elif k == "raise":
             raise _Raised()
         elif k == "catch":
@@ -215,9 +230,10 @@ class Exec:
 
     def step(self, node: dict, thunk: Any) -> None:
         nid = node["id"]
-        opts = self.np.get_options()
         if self.primary:
-            self.snap_out[nid] = opts
+            # the twin runs ordering/text steps under the options the program asked for (not under whatever
+            # get_options() reports: a leaked option must show up as a difference)
+            self.snap_out[nid] = dict(self.model)
         rec: Dict[str, Any] = {"fn": node.get("fn", "new")}
         fn = node.get("fn")
         ctx: Any = None
